@@ -171,7 +171,18 @@ PLAN17 = {
  'WHG-m1': ('G', ['C10']), 'WHG-m2': ('G', ['C10']),
  'WHH-m1': ('H', ['C07']), 'WHH-m2': ('H', ['C07']),
 }
+PLAN18 = {
+ 'WIA-m1': ('A', ['C04']), 'WIA-m2': ('A', ['C04']),
+ 'WIB-m1': ('B', ['C05']), 'WIB-m2': ('B', ['C05']),
+ 'WIC-m1': ('C', ['C09']), 'WIC-m2': ('C', ['C09']),
+ 'WID-m1': ('D', ['C19']), 'WID-m2': ('D', ['C19']),
+ 'WIE-m1': ('E', ['C03']), 'WIE-m2': ('E', ['C03']),
+ 'WIF-m1': ('F', ['C12']), 'WIF-m2': ('F', ['C12']),
+}
 SRC = {}
+for k, (d, checks) in PLAN18.items():
+    PLAN[k] = checks
+    SRC[k] = f'/tmp/mut18-{d}/out/{k.split("-")[1]}'
 for k, (d, checks) in PLAN17.items():
     PLAN[k] = checks
     SRC[k] = f'/tmp/mut17-{d}/out/{k.split("-")[1]}'
